@@ -406,6 +406,16 @@ def callback_guard(R, rule, fn, inline=()):
             bad = bad or ('the access is refused under {%s} although the area has the callback: the refusal is decided by the area\'s flag word, which a '
                           'typed access / content inspection does not go by (a register of a MEMORY_AREA_WO area can be set but no longer read back)'
                           % '; '.join(_sym.fmt(c) for c in exists + onflags)[:220])
+    # a missing callback is an access that cannot be made: the path that found the pointer null reports a failure
+    SUCCESS = R.E.get('REG_ACCESS_SUCCESS')
+    for p in ps:
+        absent = [c for c in p.cond_terms() if c[0] == 'cmp' and c[1] == '==' and c[3] == C(0) and c[2][0] == 'f' and c[2][2] in ('read', 'write')]
+        if not absent or p.end != 'return' or p.ret is None:
+            continue
+        code = dict(p.ret[2]).get('code') if p.ret[0] == 'struct' else None
+        if code is not None and code == C(SUCCESS):
+            bad = bad or ('the area has no %s callback ({%s}) and the access is not made, yet the result says success: the caller takes whatever its value object '
+                          'held for the register\'s content' % (absent[0][2][2], _sym.fmt(absent[0])))
     if ncall == 0:
         return ck.broken(rule, fn + ':callbacks', R.where(fn), 'no call through an area callback found (anchor vanished)')
     ck.verdict(bad is None, rule, fn + ':callbacks', R.where(fn),
